@@ -12,7 +12,7 @@ RULE = ('a reference encoder enumerates PROXY v1 lines (TCP4: 6x6 address pairs,
         'classes (line > 107, bad/garbled ports, family mismatch, missing fields, bad keyword/separator/line end/address/magic, bad '
         'version/command/family/protocol nibble, length shorter than the address block, TLV overrun) must be rejected, and for '
         'every input each prefix must ask for more, be rejected, or equal the complete result. '
-        'non-trivial = inputs (header x payload variant) whose complete form was accepted or rejected after the magic was recognised')
+        'non-trivial = every enumerated input (header x payload variant), each standing for all of its byte prefixes (parse_calls counts them)')
 ASSUME = ['src/proxyp/Parser.cc, proxyp/Header.cc, parser/BinaryTokenizer.cc and parser/Tokenizer.cc are recompiled from the scratch '
           'copy of the current tree with -fsanitize=address,undefined and linked into the tests/testCacheManager link set; every '
           'input prefix is copied into its own SBuf',
@@ -34,16 +34,20 @@ def run(ctx):
     cov = seq.coverage_from(m, RULE, min_classes=4)
     cov.update({k: m['counters'].get(k, 0) for k in ('parse_calls', 'prefixes_need_more', 'prefixes_same_result', 'prefixes_rejected')})
     viol = seq.violations_from(m)
-    if not m['deadline_hit']:
-        def need(k, n):
-            if oc.get(k, 0) < n:
-                raise HarnessError('vacuity guard: outcome class %s seen %d times (need %d): %r' % (k, oc.get(k, 0), n, oc))
-        need('wellformed-v1.0-parsed', 5000)
-        need('wellformed-v2.0-parsed', 10000)
-        need('malformed-rejected', 200)
-        for k, n in (('prefixes_need_more', 1000000), ('prefixes_same_result', 100000), ('prefixes_rejected', 5000)):
-            if cov[k] < n:
-                raise HarnessError('vacuity guard: %s = %d (need %d)' % (k, cov[k], n))
+    if not m['deadline_hit'] and not m['crashes']:
+        def need(what, n, prefix):
+            got = sum(v for k, v in oc.items() if k.startswith(prefix))
+            if got < n:
+                raise HarnessError('vacuity guard: %s: %d inputs (need %d): %r' % (what, got, n, oc))
+        need('well-formed v1/v2 headers tried', 15000, 'wellformed-')
+        need('well-formed v1 headers parsed', 1000, 'wellformed-v1.0-parsed')
+        need('well-formed v2 headers parsed', 5000, 'wellformed-v2.0-parsed')
+        need('malformed inputs tried', 200, 'malformed-')
+        if not viol or all(v.key.startswith(('malformed-not-rejected:', 'wellformed:')) for v in viol):
+            # prefix enumeration of an input stops at its first prefix violation, so these only hold without prefix violations
+            for k, n in (('prefixes_need_more', 1000000), ('prefixes_same_result', 100000), ('prefixes_rejected', 5000)):
+                if cov[k] < n:
+                    raise HarnessError('vacuity guard: %s = %d (need %d)' % (k, cov[k], n))
     return Result(LEVEL, cov, viol, ASSUME)
 
 
